@@ -95,6 +95,14 @@ theorem sched_complete (limit : Nat) (bs : List Bytes) (steps : List Step) (s' :
   obtain ⟨_, _, h3⟩ := sched_safe limit bs steps _ s' ⟨Nat.le_refl _, Nat.zero_le _, by simp⟩ h
   rw [h3, hw, List.take_length]
 
+/-- the schedule model and the functional `writeNode` agree: any complete run over the blobs of a
+    content list writes `contentOf`, the value `write_node_exact` gives for the function -/
+theorem sched_matches_writeNode (limit : Nat) (blobs : Blobs) (ids : List Nat) (steps : List Step) (s' : Sched)
+    (h : run limit (ids.map fun i => (blobs i).getD []) ⟨0, [], 0, []⟩ steps = some s')
+    (hw : s'.w = ids.length) : s'.out = contentOf blobs ids := by
+  have := sched_complete limit _ steps s' h (by simpa using hw)
+  simpa [contentOf] using this
+
 /-- no deadlock: as long as not everything is written, some goroutine can take a step -/
 theorem sched_progress (limit : Nat) (bs : List Bytes) (s : Sched) (hi : Inv bs s) (hw : s.w < bs.length) :
     ∃ st s', step limit bs s st = some s' := by
